@@ -110,6 +110,14 @@ func c01Exec(c progCase, kinds []string, res *core.Result) (skip string, fail *e
 		if c.FactsAsClauses {
 			pre = nil
 		}
+		if kind == "merged-file-snapshot" {
+			// a saved, partial result of an earlier evaluation: every other fact of the model is already in the file
+			for i, f := range rr.Model.All() {
+				if i%2 == 0 {
+					pre = append(pre, f.AtomV().Atom())
+				}
+			}
+		}
 		store := newEngineStore(kind, pre)
 		mon := &roundMonitor{}
 		mon.install()
@@ -177,7 +185,23 @@ func bruteNote(c progCase) string {
 	return " [reference model confirmed closed and supported by brute-force enumeration]"
 }
 
+// progOrdered: no rule has a positive atom with a function-expression argument that lacks a value at that point.
+func progOrdered(c progCase) bool {
+	for _, r := range c.Prog.Rules {
+		if len(gen.FnAtomsWithoutValue(r.Body)) > 0 {
+			return false
+		}
+	}
+	return true
+}
+
 func shrinkProg(c progCase, fails func(progCase) bool) progCase {
+	if progOrdered(c) {
+		// shrinking must not turn the witness into an instance of finding F37 (removing the atom that gives
+		// a function argument its value keeps many failures alive for another reason)
+		orig := fails
+		fails = func(t progCase) bool { return progOrdered(t) && orig(t) }
+	}
 	min := c
 	min.Prog.Rules = core.ShrinkSlice(min.Prog.Rules, func(rs []gen.ClauseV) bool {
 		t := min
